@@ -7,6 +7,7 @@ import (
 	"encoding/hex"
 	"flag"
 	"fmt"
+	"github.com/jcmturner/gofork/encoding/asn1"
 	"github.com/jcmturner/gokrb5/v8/client"
 	"github.com/jcmturner/gokrb5/v8/service"
 	"log"
@@ -129,6 +130,44 @@ func c04entries() []c04entry {
 		_, _, st := spnego.SPNEGOService(kt).AcceptSecContext(&m)
 		return st
 	})
+	add("spnego.UnmarshalNegToken", "der", func() [][]byte {
+		var out [][]byte
+		for _, b := range spInit() {
+			// the negotiation token inside the initial context token framing (NegTokenResp is sent bare)
+			if i := bytes.Index(b, []byte{0xa0}); i >= 0 && b[0] == 0x60 {
+				out = append(out, b[i:])
+			} else {
+				out = append(out, b)
+			}
+		}
+		return out
+	}, func(b []byte) error { _, _, err := spnego.UnmarshalNegToken(b); return err })
+	// ---- further ASN.1 types with exported decoders (corpus: the MIT vector where the repository has one, else the library's own encoding)
+	libDER := func(v interface{}) func() [][]byte {
+		return func() [][]byte {
+			b, err := asn1.Marshal(v)
+			if err != nil {
+				panic(err)
+			}
+			return [][]byte{b}
+		}
+	}
+	add("types.ADKDCIssued", "der", hexes(testdata.MarshaledKRB5ad_kdcissued), func(b []byte) error { var m types.ADKDCIssued; return m.Unmarshal(b) })
+	add("types.PAData", "der", libDER(types.PAData{PADataType: 2, PADataValue: []byte("0123456789abcdef")}), func(b []byte) error { var m types.PAData; return m.Unmarshal(b) })
+	add("types.Checksum", "der", libDER(types.Checksum{CksumType: 16, Checksum: []byte("0123456789ab")}), func(b []byte) error { var m types.Checksum; return m.Unmarshal(b) })
+	add("types.AuthorizationDataEntry", "der", libDER(types.AuthorizationDataEntry{ADType: 1, ADData: []byte("0123456789abcdef")}), func(b []byte) error {
+		var m types.AuthorizationDataEntry
+		return m.Unmarshal(b)
+	})
+	add("types.ETypeInfoEntry", "der", libDER(types.ETypeInfoEntry{EType: 18, Salt: []byte("REALMuser")}), func(b []byte) error { var m types.ETypeInfoEntry; return m.Unmarshal(b) })
+	add("types.ParseSPNString", "text", func() [][]byte {
+		return [][]byte{[]byte("HTTP/host.example.com@EXAMPLE.COM"), []byte("host/a.b"), []byte("user@R")}
+	}, func(b []byte) error {
+		types.ParseSPNString(string(b))
+		return nil
+	})
+	// (credentials.Credentials.Unmarshal is not an entry point: it reads the gob the library itself wrote into the application's session
+	// store - not data "originating outside the process" - and encoding/gob is documented as not hardened against hostile input)
 	add("spnego.KRB5Token", "der", func() [][]byte {
 		ap := hexes(testdata.MarshaledKRB5ap_req, testdata.MarshaledKRB5ap_rep, testdata.MarshaledKRB5error)()
 		return [][]byte{krb5MechToken([]byte{1, 0}, ap[0]), krb5MechToken([]byte{2, 0}, ap[1]), krb5MechToken([]byte{3, 0}, ap[2])}
